@@ -122,3 +122,28 @@ EXPANSION_DOCS = [
     ('<!DOCTYPE r [<!ATTLIST r t CDATA #IMPLIED>]><r t=" x&#10;y\t  z ">k</r>', "k", " x\ny   z "),
     ('<!DOCTYPE r [<!ATTLIST r t ID #IMPLIED>]><r t="\n a \r\n">k</r>', "k", "a"),
 ]
+
+
+# ---------------------------------------------------------------------------------------------------------
+# the reviewed grammar as differential reference
+
+def reference_stream(rng, n_docs, n_parts):
+    """inputs derived from the REVIEWED grammar (tools/ref/xml.json): random derivations of `document` and of its parts put
+    into a minimal document, each with one-character neighbours; answered by the real parser (`accept`) and by the model
+    over the reviewed grammar (`accept ref`).  -> [(text, implementation class, reference class)]"""
+    from gen import peggen
+    g = peggen.Gen("xml", rng)
+    texts = [g.sentence("document") for _ in range(n_docs)]
+    for _ in range(n_parts):
+        texts.append("<!DOCTYPE a [" + g.sentence("markup_decl") + "]><a/>")
+        texts.append("<a " + g.sentence("attribute_") + "/>")
+        texts.append("<a>" + g.sentence("content") + "</a>")
+        texts.append("<" + g.sentence("qname") + "/>")
+        texts.append("<?" + g.sentence("pi_target") + " d?><a/>")
+    more = []
+    for t in texts:
+        more += g.mutants(t, 1)
+    texts = [t for t in texts + more if "\x00" not in t and t]
+    impl = lib.run_lines(lib.build_harness(), [lib.req("accept", t) for t in texts], timeout=900, per_line_resume=True)
+    ref = lib.run_lines(lib.model_driver(), [lib.req("accept", "ref", t) for t in texts], timeout=900, per_line_resume=True)
+    return list(zip(texts, impl, ref))
